@@ -34,7 +34,11 @@ type c15Case struct {
 	Reopen  bool // badger: close and re-open the directory between the leaders (restart)
 	// AllSucceed rewrites every old-leader request at run time into one that succeeds (create if absent, else the
 	// drawn update/delete with the right revision): used on Badger where failed writes are a recorded finding
-	AllSucceed bool  `json:"all_succeed,omitempty"`
+	AllSucceed bool `json:"all_succeed,omitempty"`
+	// FailBudget: with AllSucceed, this many requests of the history may fail or be rejected before the rewriting
+	// starts. On Badger the hand-over itself commits twice (release, take-over), which covers two revisions consumed
+	// without a commit; histories beyond that are the recorded finding
+	FailBudget int   `json:"fail_budget,omitempty"`
 	New        []WOp // first writes of the new leader
 	// FollowerSyncs: the node that will become leader exists from the start and, as a follower serving reads, adopts
 	// the old leader's read revision after these requests of Hist (same process, so not with a re-opened Badger)
@@ -56,8 +60,12 @@ func genC15(t *rapid.T) interface{} {
 	n := rapid.IntRange(1, 30).Draw(t, "nhist")
 	failShare := rapid.SampledFrom([]int{0, 0, 20, 50, 80, 95}).Draw(t, "failShare")
 	if c.Engine == EngBadger {
-		failShare = 0 // recorded finding: failed writes on Badger; excluded by construction
+		// recorded finding: failed writes on Badger; excluded by construction beyond the budget
 		c.AllSucceed = true
+		c.FailBudget = rapid.SampledFrom([]int{2, 2, 1, 0}).Draw(t, "failBudget")
+		if c.FailBudget > 0 && failShare < 50 {
+			failShare = 50
+		}
 	}
 	for i := 0; i < n; i++ {
 		op := genWOp(t, len(c.Keys))
@@ -66,7 +74,8 @@ func genC15(t *rapid.T) interface{} {
 			if op.Kind == "create" {
 				op = &WOp{Kind: "update", K: op.K, Exp: "stale"}
 			} else {
-				op.Exp = rapid.SampledFrom([]string{"stale", "other"}).Draw(t, "fexp")
+				// far / half: an expected revision above everything issued (rejected; must not move the node's revisions)
+				op.Exp = rapid.SampledFrom([]string{"stale", "other", "stale", "far", "half"}).Draw(t, "fexp")
 			}
 		} else if op.Kind != "create" {
 			op.Exp = "ok"
@@ -75,7 +84,7 @@ func genC15(t *rapid.T) interface{} {
 	}
 	c.Compact = DrawBool(t, 25, "compact")
 	c.StopAt = rapid.IntRange(1, n).Draw(t, "stopAt")
-	c.Reopen = c.Engine == EngBadger && DrawBool(t, 70, "reopen")
+	c.Reopen = c.Engine == EngBadger && DrawBool(t, 50, "reopen")
 	if !c.Reopen && DrawBool(t, 50, "followerSyncs") {
 		c.FollowerSyncs = rapid.SliceOfN(rapid.IntRange(0, n), 1, 3).Draw(t, "syncs")
 	}
@@ -248,7 +257,7 @@ func runC15(ci interface{}, st *CaseStats) error {
 			newB.SetCurrentRevision(oldB.GetCurrentRevision())
 			_, _ = newB.Get(env.Ctx, &proto.GetRequest{Key: []byte(keys[0])})
 		}
-		if c.AllSucceed {
+		if c.AllSucceed && nFail >= c.FailBudget {
 			_, live := env.M.Live(keys[op.K%len(keys)])
 			switch {
 			case !live:
